@@ -102,6 +102,7 @@ func withSpare(m *pb.QuoteV4) {
 	for i := range b.Rtmrs {
 		b.Rtmrs[i] = re(b.Rtmrs[i])
 	}
+	b.Rtmrs = append(make([][]byte, 0, 8), b.Rtmrs...) // the list of registers has spare slots too (nil behind its length)
 	sd.Signature, sd.EcdsaAttestationKey = re(sd.Signature), re(sd.EcdsaAttestationKey)
 	qc := sd.CertificationData.QeReportCertificationData
 	qc.QeReportSignature = re(qc.QeReportSignature)
@@ -201,6 +202,14 @@ func RunFootprintCase(cs map[string]any, id int, seed int64) Result {
 		whole := proto.Clone(m)
 		out := runKind(kind, c, m, raw, vopts, level)
 		mutated := diffCells(cells)
+		if r := m.TdQuoteBody.GetRtmrs(); cap(r) > len(r) { // a slot behind the length of the register list was written
+			for _, slot := range r[len(r):cap(r)] {
+				if slot != nil {
+					mutated = append(mutated, "spare-slot")
+					break
+				}
+			}
+		}
 		if !proto.Equal(whole, m) && len(mutated) == 0 { // a scalar or a message field changed although no byte cell did
 			mutated = append(mutated, "scalar")
 		}
